@@ -401,5 +401,99 @@ func PolicyUninitCases() []PolicyCase {
 		}
 		mk("uninit function per-iteration", "function", "periter", nil, nil, nil, body, 3, [][]int32{{0, 0}, {4, 0}})
 	}
+	out = append(out, multiEntryCases()...)
+	return out
+}
+
+// multiEntryCases: modules with two or three compute entry points that reach a never written workgroup (or private)
+// variable directly, only through a helper, or through a helper of a helper, in different orders.  Every entry point is
+// executed on its own (one PolicyCase each): whichever way it reaches the variable, it must read zero.
+func multiEntryCases() []PolicyCase {
+	var out []PolicyCase
+	at := wg.Arr(wg.I32, 4)
+	outT := wg.Arr(wg.I32, 4)
+	inpT := wg.Arr(wg.I32, 2)
+	outRef := func(i int) wg.N { return wg.RIdx(wg.RVar("out", outT), wg.LitI(int32(i)), wg.I32) }
+	type ep struct {
+		name string
+		body func(space string) []wg.N
+	}
+	// helpers: g touches w (reads element 1, then writes it), f calls g, h calls f; g2 touches the scalar w2
+	helpers := func() []wg.N {
+		w := wg.RIdx(wg.RVar("w", at), wg.LitI(1), wg.I32)
+		g := wg.Fn("g", nil, wg.I32, []wg.N{wg.Let("r", wg.Load(w)), wg.Asg(w, wg.LitI(7)), wg.Ret(wg.Id("r", wg.I32))})
+		f := wg.Fn("f", nil, wg.I32, []wg.N{wg.Ret(wg.Bin("+", wg.I32, wg.Call("g", wg.I32), wg.LitI(100)))})
+		h := wg.Fn("h", nil, wg.I32, []wg.N{wg.Ret(wg.Bin("+", wg.I32, wg.Call("f", wg.I32), wg.LitI(1000)))})
+		w2 := wg.RVar("w2", wg.I32)
+		g2 := wg.Fn("g2", nil, wg.I32, []wg.N{wg.Let("r", wg.Load(w2)), wg.Asg(w2, wg.LitI(9)), wg.Ret(wg.Id("r", wg.I32))})
+		f2 := wg.Fn("f2", nil, wg.I32, []wg.N{wg.Ret(wg.Bin("+", wg.I32, wg.Call("g2", wg.I32), wg.Call("g", wg.I32)))})
+		return []wg.N{g, f, h, g2, f2}
+	}
+	call := func(i int, fn string) wg.N { return wg.Asg(outRef(i), wg.Call(fn, wg.I32)) }
+	direct := func(i int) wg.N {
+		return wg.Asg(outRef(i), wg.Load(wg.RIdx(wg.RVar("w", at), wg.LitI(int32(i)), wg.I32)))
+	}
+	direct2 := func(i int) wg.N { return wg.Asg(outRef(i), wg.Load(wg.RVar("w2", wg.I32))) }
+	progs := []struct {
+		name string
+		eps  []ep
+	}{
+		// the first entry point calls g and then a helper that calls g too; the second reaches w only through that helper
+		{"P1", []ep{
+			{"first", func(string) []wg.N { return []wg.N{call(0, "g"), call(1, "f")} }},
+			{"second", func(string) []wg.N { return []wg.N{call(0, "f")} }}}},
+		{"P2", []ep{
+			{"first", func(string) []wg.N { return []wg.N{direct(0), direct(1)} }},
+			{"second", func(string) []wg.N { return []wg.N{call(0, "g")} }},
+			{"third", func(string) []wg.N { return []wg.N{call(0, "h")} }}}},
+		{"P3", []ep{
+			{"first", func(string) []wg.N { return []wg.N{call(0, "f"), call(1, "g")} }},
+			{"second", func(string) []wg.N { return []wg.N{call(0, "g")} }},
+			{"third", func(string) []wg.N { return []wg.N{direct(1), direct(3)} }}}},
+		{"P4", []ep{
+			{"first", func(string) []wg.N { return []wg.N{call(0, "g"), call(1, "f"), call(2, "h")} }},
+			{"second", func(string) []wg.N { return []wg.N{call(0, "h")} }},
+			{"third", func(string) []wg.N { return []wg.N{call(0, "f")} }}}},
+		// two variables: g2 touches w2, f2 calls g2 and g
+		{"P5", []ep{
+			{"first", func(string) []wg.N { return []wg.N{call(0, "g2"), call(1, "g"), call(2, "f2")} }},
+			{"second", func(string) []wg.N { return []wg.N{call(0, "f2")} }},
+			{"third", func(string) []wg.N { return []wg.N{direct2(0), call(1, "f")} }}}},
+		{"P6", []ep{
+			{"first", func(string) []wg.N { return []wg.N{call(0, "h"), call(1, "f2")} }},
+			{"second", func(string) []wg.N { return []wg.N{call(0, "g2")} }},
+			{"third", func(string) []wg.N { return []wg.N{call(0, "f2"), direct(1)} }}}},
+	}
+	for _, space := range []string{"workgroup", "private"} {
+		for _, p := range progs {
+			if space == "private" && p.name != "P1" && p.name != "P5" {
+				continue
+			}
+			globals := []wg.N{wg.Global("inp", "storage", "r", inpT, 0, 0, wg.None), wg.Global("out", "storage", "rw", outT, 0, 1, wg.None),
+				wg.Global("w", space, "", at, 0, 0, wg.None), wg.Global("w2", space, "", wg.I32, 0, 0, wg.None)}
+			for active := range p.eps {
+				mk := func(all bool) wg.N {
+					fns := helpers()
+					for i, e := range p.eps {
+						if all || i == active {
+							fns = append(fns, wg.Entry(e.name, nil, e.body(space)))
+						} else {
+							fns = append(fns, wg.Fn(e.name, nil, wg.Void, e.body(space)))
+						}
+					}
+					return wg.Program(nil, nil, globals, fns)
+				}
+				pc := PolicyCase{Kind: "uninit", Form: "multiep-" + p.name, Space: space, Op: "read", Entry: p.eps[active].name}
+				pc.Family = "policy"
+				pc.Desc = fmt.Sprintf("uninit multiep %s %s %s", p.name, space, p.eps[active].name)
+				pc.Prog = mk(false)
+				pc.Source = mk(true)
+				pc.Inputs = [][][]int32{{{0, 0}, {0, 0, 0, 0}, {}, {}}}
+				pc.RowClass = []string{"uninit"}
+				pc.OOB = []bool{false}
+				out = append(out, pc)
+			}
+		}
+	}
 	return out
 }
